@@ -90,3 +90,9 @@ CONFIG = {
         "in code and model",
     ],
 }
+# statement-by-statement translation of small pure Go functions (tools/extract/trans.go -> lean/VGen/TransLevels.lean) and the
+# theorems that the translated definitions equal the model's, for all inputs (lean/VProps/TransLevels.lean)
+CONFIG["lean"] = list(CONFIG["lean"]) + ["VProps.TransLevels"]
+CONFIG["sources"] = list(CONFIG["sources"]) + ['VProps/TransLevels.lean', 'VModel/GoSem.lean']
+CONFIG["theorems"] = list(dict.fromkeys(list(CONFIG["theorems"]) + ['V.Trans.Levels.userLevel_eq_model', 'V.Trans.Levels.eventLevel_eq_model', 'V.Trans.Levels.notificationLevel_eq_model', 'V.Trans.Levels.eventLevel_third_party_invite']))
+CONFIG["trusted"] = list(CONFIG["trusted"]) + ["tools/extract/trans.go: the Go-to-Lean translation of the whitelisted functions and the Go semantics of lean/VModel/GoSem.lean (DESIGN.md §14)"]
